@@ -49,6 +49,8 @@ def run_api_property(prop, tier, clauses, design=None, extra_assumptions=(), non
     sres = stage_trace.validate(log + ".stages.ndjson", wd, limit=None if tier == "thorough" else 700)
     rep.add_trace_stats(sres["rows"], sres["states"])
     rep.extra["stage_histories_validated_against_Pipeline_tla"] = sres["rows"]
+    rep.extra["distinct_stage_paths"] = len(sres["paths"])
+    rep.extra["stage_paths"] = sres["paths"][:60]
     rep.extra["model_drift_count"] = len(sres["drift"])
     rep.extra["model_drift"] = sres["drift"][:5]
     for d in sres["drift"][:5]:
